@@ -147,6 +147,14 @@ struct Runner
             r.ret_index = idx(v.insert(v.begin() + pos, val));
         else if(n == "insertn")
             r.ret_index = idx(v.insert(v.begin() + pos, (size_type)cnt, val));
+        else if(n == "insert1_self")
+            r.ret_index = idx(v.insert(v.begin() + pos, v[(size_type)cnt])); // the argument aliases an element of the array
+        else if(n == "insertn_self")
+            r.ret_index = idx(v.insert(v.begin() + pos, (size_type)pos2, v[(size_type)cnt]));
+        else if(n == "push_back_self")
+            v.push_back(v[(size_type)cnt]);
+        else if(n == "resize_v_self")
+            v.resize((size_type)pos2, v[(size_type)cnt]);
         else if(n == "insert_fwd")
             r.ret_index = idx(v.insert(v.begin() + pos, in, in + in_n));
         else if(n == "insert_vec")
@@ -348,6 +356,44 @@ void run_plan(Exec& ex, DoOp do_op)
             newS = S + cnt;
             M2.insert(M2.begin() + (long)pos, cnt, valb);
             exp_ret = (long long)pos;
+        }
+        else if(n == "insert1_self" || n == "insertn_self" || n == "push_back_self" || n == "resize_v_self")
+        {
+            // value arguments that refer to an element of the same array (valid for std::vector)
+            if(S == 0) skip = true;
+            else
+            {
+                cnt = op.uarg(1) % S; // source element
+                const u8 sv = c.M[(std::size_t)cnt];
+                if(n == "insert1_self")
+                {
+                    pos = op.uarg(0) % (S + 1);
+                    if(S + 1 > lim) skip = true;
+                    newS = S + 1;
+                    M2.insert(M2.begin() + (long)pos, sv);
+                    exp_ret = (long long)pos;
+                }
+                else if(n == "insertn_self")
+                {
+                    pos = op.uarg(0) % (S + 1);
+                    pos2 = std::min<u64>(op.uarg(2) % 5, lim > S ? lim - S : 0);
+                    newS = S + pos2;
+                    M2.insert(M2.begin() + (long)pos, pos2, sv);
+                    exp_ret = (long long)pos;
+                }
+                else if(n == "push_back_self")
+                {
+                    if(S + 1 > lim) skip = true;
+                    newS = S + 1;
+                    M2.push_back(sv);
+                }
+                else
+                {
+                    pos2 = op.uarg(0) % (lim + 1);
+                    newS = pos2;
+                    M2.resize(pos2, sv);
+                }
+            }
         }
         else if(n == "insert_fwd" || n == "insert_vec" || n == "insert_inp" || n == "insert_il")
         {
@@ -626,7 +672,7 @@ Result exec_plan(const Plan& plan)
 // ---------------------------------------------------------------- generator
 const char* kMutators[] = {"push_back", "pop_back", "insert1", "insertn", "insert_fwd", "insert_vec", "insert_inp", "insert_il",
                            "erase1", "erase2", "resize", "resize_v", "resize_di", "assign_n", "assign_it", "assign_inp",
-                           "assign_il", "assign_string", "assign_range", "clear", "observe"};
+                           "assign_il", "assign_string", "assign_range", "clear", "observe", "insert1_self", "insertn_self", "push_back_self", "resize_v_self"};
 constexpr int kNumMut = sizeof(kMutators) / sizeof(kMutators[0]);
 
 Plan gen_plan(u64 seed, const std::string& prop, const std::string& tier)
@@ -709,6 +755,10 @@ Plan gen_plan(u64 seed, const std::string& prop, const std::string& tier)
             o.a = {small()};
             blob(4);
         }
+        else if(n == "insert1_self" || n == "push_back_self" || n == "resize_v_self")
+            o.a = {small(), small()};
+        else if(n == "insertn_self")
+            o.a = {small(), small(), small()};
         else if(n == "erase1")
             o.a = {small()};
         else if(n == "erase2")
